@@ -138,6 +138,18 @@ def c04_classify(params, tree, res):
     if text and (text.endswith('**/') or text.endswith('***/')) and not res.get('only_glob') and res.get('only_match'):
         if res.get('only_match_nondir') == res['only_match']:
             return 'final-globstar-dir-pattern-accepts-non-directory'
+    from wcmatch import glob as G
+    if text and isinstance(flags, int) and flags & G.MATCHBASE and ('/' not in text.rstrip('/') or set(text) <= {'*', '/'}):
+        # (the walker folds consecutive globstars first, so `**/**` is a single part for it and MATCHBASE applies as for `**`)
+        import re
+        first_gs = re.match(r'\*\*(?:/|$)', text) is not None
+        if first_gs and flags & G.GLOBSTARLONG and flags & G.FOLLOW and res.get('only_glob'):
+            # MATCHBASE's implicit prefix is `***` here and stands next to the written `**`: the walker folds the two into one link-following
+            # globstar, the matcher checks the captured `**` for symlinks (same root as C06's adjacent-globstar finding, implicit form)
+            return 'matchbase-long-follow-prefix-before-globstar'
+        single = text.rstrip('/') in ('**', '***')
+        if single and not res.get('only_glob') and res.get('only_match') and all(any(seg.startswith('.') for seg in x.split('/')) for x in res['only_match']):
+            return 'matchbase-globstar-hidden'            # listed under C03: `**` + MATCHBASE accepts hidden names in the matcher only
     return c06_classify(params, tree, res)
 
 
